@@ -1,5 +1,5 @@
 #!/venv/bin/python
-"""confirm_seed.py <dir-with-mutation_i.patch/demo_i.py/notes_i.md> <i> <seed-id> <property> [extra check ids...]
+"""confirm_seed.py <dir-with-mutation_i.patch/demo_i.py/notes_i.md | /verif/seeded/<seed-id>> <i> <seed-id> <property> [extra check ids...]
 Confirms an adversarial change in a fresh scratch worktree of /repo (never /repo itself):
 demo passes on the clean tree, fails with the patch; the unedited suite still passes with the
 patch; then runs the /verif checks against the patched copy.  Keeps it under /verif/seeded/<seed-id>/."""
@@ -16,6 +16,14 @@ try:
     assert sh("git -C /repo worktree add --detach %s HEAD -q" % wt).returncode == 0
     patch = os.path.join(src, "mutation_%s.patch" % i)
     demo = os.path.join(src, "demo_%s.py" % i)
+    old_notes = None
+    if os.path.exists(os.path.join(src, "patch.diff")):
+        # re-confirmation of a stored seed: <dir> is /verif/seeded/<seed-id>, <i> is ignored
+        patch, demo = os.path.join(src, "patch.diff"), os.path.join(src, "demo.py")
+        shutil.copy(patch, "/tmp/ahrs-seed-%d.diff" % os.getpid()); patch = "/tmp/ahrs-seed-%d.diff" % os.getpid()
+        shutil.copy(demo, "/tmp/ahrs-seed-%d.py" % os.getpid()); demo = "/tmp/ahrs-seed-%d.py" % os.getpid()
+        if os.path.exists(os.path.join(src, "meta.json")):
+            old_notes = json.load(open(os.path.join(src, "meta.json"))).get("needs_to_manifest")
     shutil.copy(demo, os.path.join(wt, "demo_seed.py"))
     r0 = sh("cd %s && /venv/bin/python demo_seed.py" % wt)
     meta["demo_clean_exit"] = r0.returncode
@@ -26,7 +34,7 @@ try:
     meta["demo_patched_output_tail"] = r1.stdout[-400:]
     ts = sh("cd %s && /venv/bin/python -m pytest -q -p no:cacheprovider 2>&1 | tail -1" % wt)
     meta["suite_with_patch"] = ts.stdout.strip()
-    diff = sh("git -C %s diff -- ahrs" % wt).stdout
+    diff = sh("git -C %s diff HEAD -- ahrs" % wt).stdout
     res = {}
     out = tempfile.mkdtemp(prefix="ahrs-seed-out-")
     for c in checks:
@@ -40,9 +48,9 @@ try:
     ok = meta["demo_clean_exit"] == 0 and meta["demo_patched_exit"] not in (0,) and "250 passed" in meta["suite_with_patch"]
     meta["confirmed"] = ok
     notes = os.path.join(src, "notes_%s.md" % i)
-    meta["needs_to_manifest"] = open(notes).read()[:1500] if os.path.exists(notes) else ""
+    meta["needs_to_manifest"] = old_notes if old_notes is not None else (open(notes).read()[:1500] if os.path.exists(notes) else "")
     meta["what_was_run"] = ["demo on clean scratch worktree", "git apply patch", "demo with patch", "full pytest suite with patch", "./check <ids> quick with AHRS_REPO=<scratch worktree>"]
-    if ok:
+    if ok and len(diff) > 50:
         d = os.path.join(root, "seeded", sid)
         os.makedirs(d, exist_ok=True)
         open(os.path.join(d, "patch.diff"), "w").write(diff)
@@ -52,5 +60,8 @@ try:
     for c in checks:
         print("  ", c, res[c]["exit"], res[c]["violation_signatures"][:3])
 finally:
+    for f_ in ("/tmp/ahrs-seed-%d.diff" % os.getpid(), "/tmp/ahrs-seed-%d.py" % os.getpid()):
+        if os.path.exists(f_):
+            os.remove(f_)
     sh("git -C /repo worktree remove --force %s" % wt)
     shutil.rmtree(wt, ignore_errors=True)
